@@ -38,8 +38,14 @@ typedef struct glyph_t glyph_t;
 
 /* XXX: These numbers are arbitrary---we've never done any measurements.
  */
+#if defined(FREEDESKTOP_PIXMAN_VERIF) && defined(PIXMAN_VERIF_GLYPH_HIGH_WATER)
+/* verification hook: a small table brings table-filling histories into reach */
+#define N_GLYPHS_HIGH_WATER  (PIXMAN_VERIF_GLYPH_HIGH_WATER)
+#define N_GLYPHS_LOW_WATER   (PIXMAN_VERIF_GLYPH_HIGH_WATER / 2)
+#else
 #define N_GLYPHS_HIGH_WATER  (16384)
 #define N_GLYPHS_LOW_WATER   (8192)
+#endif
 #define HASH_SIZE (2 * N_GLYPHS_HIGH_WATER)
 #define HASH_MASK (HASH_SIZE - 1)
 
